@@ -20,6 +20,9 @@ type GhostVar struct {
 // VerifyOpts tune one function verification.
 type VerifyOpts struct {
 	Ghost []GhostVar
+	// DropAxioms: labelled package axioms ([name]) that must not be assumed
+	// (a property that quantifies over inputs on which the axiom is false)
+	DropAxioms []string
 }
 
 // VerifyFunc generates the obligations of one function against its contract.
@@ -127,9 +130,23 @@ func (e *Engine) VerifyFunc(key string, opts VerifyOpts) error {
 		if ax.Pkg != keyPkg(key) {
 			continue
 		}
+		dropped := false
+		for _, d := range opts.DropAxioms {
+			if d == ax.Name && d != "" {
+				dropped = true
+			}
+		}
+		if dropped {
+			continue
+		}
 		env := e.newEnv(st, pos)
 		v, err := e.evalSpec(env, ax.Expr)
 		if err != nil {
+			// an axiom over types the function's file does not import cannot be
+			// stated there: it is not assumed (dropping an assumption is sound)
+			if strings.Contains(err.Error(), "quantifier type") {
+				continue
+			}
 			return fmt.Errorf("%s:%d: %v", ax.File, ax.Line, err)
 		}
 		st.Assume(v.T)
